@@ -159,6 +159,65 @@ theorem resize_length (bs : Bytes) (n : Nat) : (resize bs n).length = n := by
 @[simp] theorem account_faults (s : State) (n : Nat) : (account s n).faults = s.faults := by
   unfold account; split <;> rfl
 
+@[simp] theorem applyData_short (s : State) (sl : Slot) (d : Bytes) : (applyData s sl d).short = s.short := by
+  unfold applyData; split <;> (try split) <;> rfl
+@[simp] theorem account_short (s : State) (n : Nat) : (account s n).short = s.short := by
+  unfold account; split <;> rfl
+@[simp] theorem applyData_gap (s : State) (sl : Slot) (d : Bytes) : (applyData s sl d).gap = s.gap := by
+  unfold applyData; split <;> (try split) <;> rfl
+@[simp] theorem account_gap (s : State) (n : Nat) : (account s n).gap = s.gap := by
+  unfold account; split <;> rfl
+@[simp] theorem gapUpd_consumed (s : State) (b : Bool) (n m : Nat) : (gapUpd s b n m).consumed = s.consumed := by
+  unfold gapUpd; split <;> rfl
+@[simp] theorem gapUpd_pc (s : State) (b : Bool) (n m : Nat) : (gapUpd s b n m).pc = s.pc := by
+  unfold gapUpd; split <;> rfl
+@[simp] theorem gapUpd_cur (s : State) (b : Bool) (n m : Nat) : (gapUpd s b n m).cur = s.cur := by
+  unfold gapUpd; split <;> rfl
+@[simp] theorem gapUpd_reuse (s : State) (b : Bool) (n m : Nat) : (gapUpd s b n m).reuse = s.reuse := by
+  unfold gapUpd; split <;> rfl
+@[simp] theorem gapUpd_leaderBuf (s : State) (b : Bool) (n m : Nat) : (gapUpd s b n m).leaderBuf = s.leaderBuf := by
+  unfold gapUpd; split <;> rfl
+@[simp] theorem gapUpd_trailerBuf (s : State) (b : Bool) (n m : Nat) : (gapUpd s b n m).trailerBuf = s.trailerBuf := by
+  unfold gapUpd; split <;> rfl
+@[simp] theorem gapUpd_pending (s : State) (b : Bool) (n m : Nat) : (gapUpd s b n m).pending = s.pending := by
+  unfold gapUpd; split <;> rfl
+@[simp] theorem gapUpd_first (s : State) (b : Bool) (n m : Nat) : (gapUpd s b n m).first = s.first := by
+  unfold gapUpd; split <;> rfl
+@[simp] theorem gapUpd_last (s : State) (b : Bool) (n m : Nat) : (gapUpd s b n m).last = s.last := by
+  unfold gapUpd; split <;> rfl
+@[simp] theorem gapUpd_plen (s : State) (b : Bool) (n m : Nat) : (gapUpd s b n m).plen = s.plen := by
+  unfold gapUpd; split <;> rfl
+@[simp] theorem gapUpd_nextXfer (s : State) (b : Bool) (n m : Nat) : (gapUpd s b n m).nextXfer = s.nextXfer := by
+  unfold gapUpd; split <;> rfl
+@[simp] theorem gapUpd_nextBuf (s : State) (b : Bool) (n m : Nat) : (gapUpd s b n m).nextBuf = s.nextBuf := by
+  unfold gapUpd; split <;> rfl
+@[simp] theorem gapUpd_chan (s : State) (b : Bool) (n m : Nat) : (gapUpd s b n m).chan = s.chan := by
+  unfold gapUpd; split <;> rfl
+@[simp] theorem gapUpd_back (s : State) (b : Bool) (n m : Nat) : (gapUpd s b n m).back = s.back := by
+  unfold gapUpd; split <;> rfl
+@[simp] theorem gapUpd_senderAlive (s : State) (b : Bool) (n m : Nat) : (gapUpd s b n m).senderAlive = s.senderAlive := by
+  unfold gapUpd; split <;> rfl
+@[simp] theorem gapUpd_rxAlive (s : State) (b : Bool) (n m : Nat) : (gapUpd s b n m).rxAlive = s.rxAlive := by
+  unfold gapUpd; split <;> rfl
+@[simp] theorem gapUpd_held (s : State) (b : Bool) (n m : Nat) : (gapUpd s b n m).held = s.held := by
+  unfold gapUpd; split <;> rfl
+@[simp] theorem gapUpd_freed (s : State) (b : Bool) (n m : Nat) : (gapUpd s b n m).freed = s.freed := by
+  unfold gapUpd; split <;> rfl
+@[simp] theorem gapUpd_ctl (s : State) (b : Bool) (n m : Nat) : (gapUpd s b n m).ctl = s.ctl := by
+  unfold gapUpd; split <;> rfl
+@[simp] theorem gapUpd_iterStart (s : State) (b : Bool) (n m : Nat) : (gapUpd s b n m).iterStart = s.iterStart := by
+  unfold gapUpd; split <;> rfl
+@[simp] theorem gapUpd_got (s : State) (b : Bool) (n m : Nat) : (gapUpd s b n m).got = s.got := by
+  unfold gapUpd; split <;> rfl
+@[simp] theorem gapUpd_enq (s : State) (b : Bool) (n m : Nat) : (gapUpd s b n m).enq = s.enq := by
+  unfold gapUpd; split <;> rfl
+@[simp] theorem gapUpd_sentLog (s : State) (b : Bool) (n m : Nat) : (gapUpd s b n m).sentLog = s.sentLog := by
+  unfold gapUpd; split <;> rfl
+@[simp] theorem gapUpd_recvLog (s : State) (b : Bool) (n m : Nat) : (gapUpd s b n m).recvLog = s.recvLog := by
+  unfold gapUpd; split <;> rfl
+@[simp] theorem gapUpd_faults (s : State) (b : Bool) (n m : Nat) : (gapUpd s b n m).faults = s.faults := by
+  unfold gapUpd; split <;> rfl
+
 theorem account_first_none (s : State) (n : Nat) (h : s.first = none) :
     (account s n).first = some n ∧ (account s n).last = some n ∧ (account s n).plen = s.plen := by
   unfold account; rw [h]; simp
@@ -169,6 +228,19 @@ theorem account_first_some (s : State) (n : Nat) (h : s.first ≠ none) :
   cases hf : s.first with
   | none => exact absurd hf h
   | some v => simp
+
+/-- Remove the contiguity bookkeeping wrapper from every field it does not change. -/
+macro "strip_gap" : tactic => `(tactic| try simp only [gapUpd_consumed, gapUpd_pc, gapUpd_cur, gapUpd_reuse, gapUpd_leaderBuf, gapUpd_trailerBuf, gapUpd_pending, gapUpd_first, gapUpd_last, gapUpd_plen, gapUpd_nextXfer, gapUpd_nextBuf, gapUpd_chan, gapUpd_back, gapUpd_senderAlive, gapUpd_rxAlive, gapUpd_held, gapUpd_freed, gapUpd_ctl, gapUpd_iterStart, gapUpd_got, gapUpd_enq, gapUpd_sentLog, gapUpd_recvLog, gapUpd_faults])
+
+theorem gacc_first_none (s : State) (n : Nat) (b : Bool) (k m : Nat) (h : s.first = none) :
+    (gapUpd (account s n) b k m).first = some n ∧ (gapUpd (account s n) b k m).last = some n ∧
+    (gapUpd (account s n) b k m).plen = s.plen := by
+  simp only [gapUpd_first, gapUpd_last, gapUpd_plen]; exact account_first_none s n h
+
+theorem gacc_first_some (s : State) (n : Nat) (b : Bool) (k m : Nat) (h : s.first ≠ none) :
+    (gapUpd (account s n) b k m).first = s.first ∧ (gapUpd (account s n) b k m).last = some n ∧
+    (gapUpd (account s n) b k m).plen = s.plen + n := by
+  simp only [gapUpd_first, gapUpd_last, gapUpd_plen]; exact account_first_some s n h
 
 theorem applyData_cur_isSome (s : State) (sl : Slot) (d : Bytes) :
     (applyData s sl d).cur.isSome = s.cur.isSome := by
@@ -296,6 +368,7 @@ theorem PoolOK_step {P : Params} {A : Assembler} {script : List Item} {s s' : St
         split at hs
         · next hlen =>
           injection hs with hs; subst hs
+          strip_gap
           rcases hsh with ⟨hf, hp, hsl⟩ | ⟨hf, pre, suf, hpay, hsl, hle⟩
           · -- the leader transfer completes
             obtain ⟨a1, a2, a3⟩ := account_first_none (applyData s x.slot d) d.length (by simpa using hf)
@@ -372,7 +445,9 @@ theorem PoolOK_step {P : Params} {A : Assembler} {script : List Item} {s s' : St
       split at hs
       · split at hs
         · dsimp only at hs
-          split at hs <;> (injection hs with hs; subst hs) <;> simp [PoolOK, hpend]
+          split at hs
+          · injection hs with hs; subst hs; simp [PoolOK, hpend]
+          · split at hs <;> (injection hs with hs; subst hs) <;> simp [PoolOK, hpend]
         · injection hs with hs; subst hs; simp [PoolOK, hpend]
       · injection hs with hs; subst hs; simp [PoolOK, hpend]
     · cases hs
@@ -576,6 +651,7 @@ theorem Sizes_step {P : Params} {A : Assembler} {script : List Item} {s s' : Sta
         split at hs
         · next hlen =>
           injection hs with hs; subst hs
+          strip_gap
           have hslot := front_slot_of_PoolOK hp hpc hpend
           obtain ⟨b1, b2, b3⟩ := applyData_sizes ⟨hl, ht, hc, hr, hi, hsn⟩ hslot hlen
           refine ⟨by simpa using b1, by simpa using b2, by simpa using b3, by simpa using hr, ?_, by simpa using hsn⟩
@@ -618,6 +694,9 @@ theorem Sizes_step {P : Params} {A : Assembler} {script : List Item} {s s' : Sta
         rw [hlast] at hl0; injection hl0 with hl0; subst hl0
         rw [if_pos hle] at hs
         dsimp only at hs
+        split at hs
+        · injection hs with hs; subst hs
+          exact ⟨hl, ht, by simp, by simpa [hcur] using hc, by simp, hsn⟩
         split at hs <;> (injection hs with hs; subst hs)
         · exact ⟨hl, ht, by simp, by simpa [hcur] using hc, by simp, hsn⟩
         · exact ⟨hl, ht, by simp, by simpa [hcur] using hc, by simp, hsn⟩
